@@ -582,7 +582,7 @@ def block(ctx: Ctx, stmts, ret_wrap, ind="  ") -> str:
         # `try: X = <call> except <E>: [log] X = <fallback>`: the call is an Option-valued oracle (`none` = it raised).
         # With fallback `None` the variable itself is the Option (covers "returned None" and "raised NotImplementedError").
         hb = [st for st in (s.handlers[0].body if len(s.handlers) == 1 else []) if not is_log(st)]
-        ok = (len(s.handlers) == 1 and not s.orelse and not s.finalbody and ast.unparse(s.handlers[0].type) in ("NotImplementedError", "Exception")
+        ok = (len(s.handlers) == 1 and not s.orelse and not s.finalbody and ast.unparse(s.handlers[0].type) in ("NotImplementedError", "Exception", "TypeError", "ValueError")
               and len(s.body) == 1 and isinstance(s.body[0], ast.Assign) and len(hb) == 1 and isinstance(hb[0], ast.Assign)
               and ast.unparse(hb[0].targets[0]) == ast.unparse(s.body[0].targets[0]) and isinstance(s.body[0].targets[0], ast.Name))
         if not ok:
